@@ -48,6 +48,11 @@ def check_plan(ctx, cfg, env, tr, worst):
     ctx.hist("dist_clock", "hi-prec" if hip else "cubic" if cubic else "interpolated" if interp else "exact(poly0/dft/half)")
     if lat == 0:
         return "latency compensation clause fails (PlanLatOK false): offset %s input periods, %s" % (off, t)
+    if interp and not cubic and not hip and (int(cfg.get("qflags", 0)) & 8):
+        # the caller asked for the hi-prec clock and the plan has a stage whose rate is a rounded clock step: it must be the 96-bit one
+        # (F37, repaired in /repo by 3274029: the 16-bit recipes ignored the flag and drifted about 1e-10 input periods per output frame)
+        return ("SOXR_HI_PREC_CLOCK was requested but the interpolated stage of the plan runs on the standard clock (rate error %.3g x 2^-32 of the "
+                "longer period per output frame: %.3g periods after 1e8 frames)" % (float(err * 2 ** 32), float(err * 10 ** 8)))
     if not interp:
         # every stage has an exact rational rate: the plan must be exact for the whole stream
         ctx.count("plans_exact")
@@ -118,6 +123,14 @@ def run(ctx):
              ({"ir": "10000", "or": "1", "recipe": 0}, {}), ({"ir": "96000", "or": "44101", "recipe": 5}, {"SOXR_USE_SIMD": "0"})]
     for i in range(nplans):
         cfgs.append(fixed[i] if i < len(fixed) else cr.gen_config(rng, allow_nonlinear=False))
+    # the planner's fallback from an exact poly-phase table to an interpolated one (rational ratio with L <= 2048 whose table exceeds
+    # coef_size_kbytes), with and without the hi-prec clock: the clock clauses must hold on whichever path the planner takes
+    for i in range(nplans // 8):
+        a, b = 1 + rng.below(2300), 1 + rng.below(2300)
+        cfg = {"ir": str(a), "or": str(b), "recipe": rng.choice([1, 2, 3, 4, 5, 6, 7, 0x44, 0x46]), "qflags": rng.choice([8, 8, 0, 16 | 8])}
+        if rng.chance(.6):
+            cfg["kb"] = 50 + rng.below(400)
+        cfgs.append((cfg, {"SOXR_USE_SIMD": "0"} if rng.chance(.4) else {}))
 
     def work(ce):
         cfg, env = ce
@@ -174,12 +187,16 @@ def run(ctx):
             ctx.violation("C04 fails on the real code: %s (%s %s); the engine's clock/phase bookkeeping also left the Lean count model at %s" % (
                 found, cr.create_line(job["cfg"]), job["env"], tr.diff[1]), {"cfg": job["cfg"], "env": job["env"], "measured": found, "plan": tr.plan})
     # ---- verdicts
+    nlong = 0
     for cfg, env, tr, p in problems:
         rep = {"cfg": cfg, "env": env, "plan": tr.plan, "problem": p, "replay": "harness/cr/trace.c: " + cr.create_line(cfg)}
         found = None
         if numeric is not None and hasattr(numeric, "confirm"):
             try:
                 found = numeric.confirm(cfg, env)
+                if not found and "SOXR_HI_PREC_CLOCK" in p and nlong < 3:      # a drift shows on a long stream, not on the ramp
+                    nlong += 1
+                    found = numeric.confirm_long(cfg, env)
             except Exception as ex:          # the measurement itself failing is not evidence either way
                 rep["confirm_error"] = repr(ex)
         if found:
